@@ -102,7 +102,7 @@ func c08Run(prefix []int, cfg c08Cfg) explore.Outcome {
 		r.Start()
 		cl, err := r.Connect()
 		if err != nil {
-			viol = append(viol, V("harness", "%v", err))
+			viol = append(viol, V("setup-handshake-fails", "setting the scenario up with well-behaved peers fails: %v", err))
 			return
 		}
 		vsched.Quiesce()
@@ -417,7 +417,7 @@ func c08Handshake(prefix []int, cfg c08HsCfg) explore.Outcome {
 		}
 		cl, err := ss.client()
 		if err != nil {
-			viol = append(viol, V("harness", "%v", err))
+			viol = append(viol, V("setup-handshake-fails", "setting the scenario up with well-behaved peers fails: %v", err))
 			return
 		}
 		ctx, cancel := vcontext.WithCancel(context.Background())
